@@ -198,11 +198,16 @@ def main(tier, replay=None):
                 if kind == "violation" and not detail.startswith("exception:"):
                     rep.violation({"op": ev["op"], "kind": detail, "layer": "polyhedral"},
                                   {"family": pid, "case": case, "event": family.clean_json(ev), "verdict": [kind, detail]})
+    n_lists = 0
+    if not replay:
+        import listdrv
+
+        n_lists, _ = listdrv.conformance(rep, rd, PROP)     # the list helpers every interface formula is computed with
     shutil.rmtree(rd, ignore_errors=True)
     return rep.finish({
-        "evaluations": len(paths) + n_num,
+        "evaluations": len(paths) + n_num + 3 * n_lists,
         "distinct_nontrivial": len(nontriv),
-        "traces_validated_against_impl": len(paths) + n_num,
+        "traces_validated_against_impl": len(paths) + n_num + n_lists,
         "rule": "symbolic: topology of <= 4 variables x operation (compose/quotient/merge with every primitive outcome path; constructor with "
                 "planted duplicates/overlaps/stray variables; refines across interfaces; copy; rename) -- polyhedral: the pairs of the C01/C02/C08/C16 "
                 "generators judged on the interface group only; distinct by (operation, interfaces, options, outcome interface)",
